@@ -126,10 +126,13 @@ def finish(mod, prop, tier, seed, results, t0, partial=False, second=None):
         funcs.update(r.get("funcs") or [])
         cfgs.append(dict(harness=r.get("name"), cfg=r.get("cfg"), K=r.get("K"), mode=r.get("mode"),
                          state_bits=r.get("state_bits"), wall_s=r.get("wall_s"), bounds=r.get("bounds")))
+        recs = r.get("records", [])
         if r.get("error"):
             inconclusive.append("%s: %s" % (r.get("name"), r["error"].splitlines()[0][:300]))
-            continue
-        recs = r.get("records", [])
+            # a violation that was already replayed on the real code before the job broke down stays a violation; nothing else of the job counts
+            recs = [x for x in recs if x.get("kind") == "bad" and x.get("verdict") == "violated"]
+            if not recs:
+                continue
         wit = [x for x in recs if x["kind"] == "witness"]
         wit_ok = all(x["verdict"] == "reached" for x in wit)
         witnesses += len(wit)
